@@ -407,6 +407,10 @@ func main() {
 			v := Violation{Sig: id + "|data-race|free-running-race-detector", Detail: "go test -race on the un-instrumented parser with the documented consumer loops reports a data race:\n" + tail(out, 3000)}
 			violCount[v.Sig]++
 			viols = append(viols, v)
+		case strings.Contains(out, "VERIF-RACE-DIFF"):
+			v := Violation{Sig: id + "|free-running-consumer-sees-different-things", Detail: tail(out, 2000)}
+			violCount[v.Sig]++
+			viols = append(viols, v)
 		case strings.Contains(out, "VERIF-RACE-HANG"):
 			v := Violation{Sig: id + "|free-running-consumer-hangs", Detail: tail(out, 2000)}
 			violCount[v.Sig]++
